@@ -92,7 +92,10 @@ theorem selectInByteTable_eq (b : BitVec 8) (k : Nat) : selectInByteTable b k = 
 
 /-! ### word bits, trailing zeros, the CTZ select loop -/
 
-@[simp] theorem wordBits_length (x : BitVec 64) : (wordBits x).length = 64 := by simp [wordBits]
+theorem wordBits_length (x : BitVec 64) : (wordBits x).length = 64 := by simp [wordBits]
+
+-- simp-normal form for this family of files only (a global @[simp] changes other properties' proofs)
+attribute [local simp] wordBits_length
 
 theorem wordBits_getElem? (x : BitVec 64) (j : Nat) :
     (wordBits x)[j]? = if j < 64 then some (x.getLsbD j) else none := by
